@@ -2,36 +2,135 @@
 (three runtime feature builds; optional mutated copy of the repo for testing the checks themselves),
 and the async script generator.  See harness/rt-native/README.md for the protocols."""
 import os, shutil
-from vlib import sh, HARNESS, TARGET, BUILD, REPO
+from vlib import sh, HARNESS, BUILD, REPO
 
 
 def build_rt(c, features=None):
-    """Build rt-native and return the path of the executable (None + broken obligation on failure).
+    """Build rt-native and return the path of a private copy of the executable (None + broken obligation on
+    failure).
 
-    features: None | "async-spawn" | "inter-task-wakeup" | "futures-stream" (comma separated);
-    every feature build is copied to .build/rt-native[-<features>] so that they can coexist.
-    If VERIF_REPO names a directory other than /repo (a *copy* with deliberate edits, used to test
-    that the checks catch property-breaking changes without touching the shared /repo), the crate
-    `wit-bindgen` is overridden by `<VERIF_REPO>/crates/guest-rust`, the extraction in build.rs reads
-    from there, and a separate target directory is used."""
+    features: None | "async-spawn" | "inter-task-wakeup" | "futures-stream" (comma separated).
+    Same scheme as checks/exec_common.py `build_exec` (several checks and builders build this package
+    concurrently, with different features):
+      * one cargo target directory per feature build (`.build/target-rt-<build>`, shared with exec_common):
+        no rebuild ping-pong, no wrong-feature artefact under a shared name;
+      * the artefact is copied to a temporary name, PROBED (`rt-native features` prints the compiled runtime
+        features) and only then installed by an atomic rename onto `.build/rt-native[-<features>]` — a process
+        still executing the previous copy keeps its inode (no ETXTBSY, no half-written file);
+      * a probe mismatch (artefact replaced between `cargo build` and the copy) is retried, then reported as a
+        broken obligation, never used.
+    If VERIF_REPO names a directory other than /repo (a *copy* with deliberate edits, used to test that the
+    checks catch property-breaking changes without touching the shared /repo), the crate `wit-bindgen` is
+    overridden by `<VERIF_REPO>/crates/guest-rust`, build.rs extracts from there, and `-mut` directories /
+    names are used."""
+    import subprocess
+    build = features.replace(",", "-") if features else "default"
+    want = ",".join(sorted(features.split(","))) if features else ""
     cmd = ["cargo", "build", "-p", "rt-native"]
     if features:
         cmd += ["--features", features]
-    env, target = {}, TARGET
-    if os.path.realpath(REPO) != "/repo":
-        target = os.path.join(BUILD, "target-mut")
-        cmd += ["--target-dir", target, "--config", 'paths=["%s/crates/guest-rust"]' % REPO]
+    env, mut = {}, os.path.realpath(REPO) != "/repo"
+    target = os.path.join(BUILD, "target-rt-" + build + ("-mut" if mut else ""))
+    cmd += ["--target-dir", target]
+    if mut:
+        cmd += ["--config", 'paths=["%s/crates/guest-rust"]' % REPO]
         env["VERIF_REPO"] = REPO
-        c.notes.append(f"rt-native built against the repo copy {REPO}")
-    rc, out = sh(cmd, cwd=HARNESS, timeout=3000, env=env)
-    if rc != 0:
-        c.broken.append(("harness build rt-native" + (f" --features {features}" if features else ""), out[-3000:]))
-        return None
-    exe = os.path.join(target, "debug", "rt-native")
-    dst = os.path.join(BUILD, "rt-native" + ("-" + features.replace(",", "-") if features else "")
-                       + ("-mut" if target != TARGET else ""))
-    shutil.copy2(exe, dst)
-    return dst
+        if not any("repo copy" in x for x in c.notes):
+            c.notes.append(f"rt-native built against the repo copy {REPO}")
+    what = "harness build rt-native" + (f" --features {features}" if features else "")
+    dst = os.path.join(BUILD, "rt-native" + ("-" + build if features else "") + ("-mut" if mut else ""))
+    last = ""
+    for _attempt in range(4):
+        rc, out = sh(cmd, cwd=HARNESS, timeout=3000, env=env)
+        if rc != 0:
+            c.broken.append((what, out[-3000:]))
+            return None
+        tmp = dst + ".tmp%d" % os.getpid()
+        shutil.copy2(os.path.join(target, "debug", "rt-native"), tmp)
+        try:
+            probe = subprocess.run([tmp, "features"], capture_output=True, text=True, timeout=20).stdout.strip()
+        except Exception as e:                      # noqa: BLE001 - a probe that cannot run is a failed probe
+            probe = "probe failed: %r" % (e,)
+        got = ",".join(sorted(x for x in probe[len("features:"):].split(",") if x)) if probe.startswith("features:") else None
+        if got == want:
+            os.replace(tmp, dst)
+            return dst
+        os.remove(tmp)
+        last = probe[:200]
+    c.broken.append((what, "the built executable does not have the requested features (concurrent builds?): " + last))
+    return None
+
+
+# ---------------------------------------------------------------------------- running scripts
+
+DOCUMENTED_PANICS = (
+    ("cannot sleep waiting only on Rust-originating events",
+     "export: task sleeps with no waitable registered (documented panic of the default feature build)"),
+)
+
+
+class ScriptRun:
+    """One script run on the implementation.
+    raw      the harness's answer (trace, TAB, panic message) or `crash`/`timeout`
+    prefix   the trace up to the point where a panic started (the whole trace if none): what is judged
+    panicked a Rust panic started (`@panic` marker) — what follows in `raw` is unwinding and is NOT judged
+    aborted  the process died (a panic inside an `extern "C"` callback cannot unwind); `prefix` was then
+             recovered by re-running this one script with RT_NATIVE_STREAM=1
+    msg      panic message ("" if none / lost)
+    """
+    __slots__ = ("raw", "prefix", "panicked", "aborted", "msg")
+
+    def judged(self):
+        """what the spec side is evaluated on: the prefix, closed by `panic end:?:0` if a panic started"""
+        return self.prefix + (" panic end:?:0" if self.panicked else "")
+
+    def cmp(self):
+        """comparison form of the implementation side: prefix + `panic`"""
+        return self.prefix + (" panic" if self.panicked else "")
+
+
+def model_cmp(trace):
+    """comparison form of a model trace: up to and including its first `panic` token"""
+    toks = trace.split(" ")
+    return " ".join(toks[:toks.index("panic") + 1]) if "panic" in toks else trace
+
+
+def run_scripts(impl, reqs, timeout=900):
+    """Run script lines; never loses a trace: a script that kills the process is re-run alone in streaming mode."""
+    import subprocess
+    from vlib import run_lines
+    outs = run_lines([impl, "script"], reqs, timeout=timeout)
+    runs = []
+    for r, o in zip(reqs, outs):
+        x = ScriptRun()
+        x.raw, x.aborted = o, False
+        trace, _, msg = o.partition("\t")
+        if o in ("crash", "timeout"):
+            try:
+                p = subprocess.run([impl, "script"], input=r + "\n", capture_output=True, text=True, timeout=30,
+                                   env=dict(os.environ, RT_NATIVE_STREAM="1"))
+                trace, msg = p.stderr, "process aborted (panic that cannot unwind)"
+            except subprocess.TimeoutExpired as e:
+                trace = (e.stderr or b"").decode() if isinstance(e.stderr, bytes) else (e.stderr or "")
+                msg = "timeout"
+            x.aborted = True
+            if "@panic" not in trace.split(" "):
+                trace = trace.strip() + " @panic"          # died without a Rust panic (signal): judged up to here
+        toks = trace.split(" ")
+        if "@panic" in toks:
+            x.prefix, x.panicked = " ".join(toks[:toks.index("@panic")]), True
+        else:
+            x.prefix, x.panicked = trace.strip(), False
+        x.msg = msg
+        runs.append(x)
+    return runs
+
+
+def documented_panic(run):
+    for needle, what in DOCUMENTED_PANICS:
+        if needle in run.msg:
+            return what
+    return None
 
 
 # ---------------------------------------------------------------------------- async scripts
@@ -140,6 +239,11 @@ def gen_chan_script(rng, mode, maxbody, stats=None, want=None, adapter_ok=False,
         if r < 0.8: return f"n{c}"
         return f"C{c}"
     while len(body) < n:
+        if tasks and mode == "cabi2" and rng.random() < 0.08:
+            # the body moves to the other harness task (v2 ABI only: with the v1 ABI a move leaves a stale
+            # registration behind — C18's known finding waitable-v1-cross-task, judged there)
+            body.append(f"t{rng.choice([1, 2])}")
+            continue
         c = rng.randrange(nch)
         if c not in opened and rng.random() < 0.9:
             opened.add(c); body.append(f"o{c}"); continue
@@ -156,7 +260,7 @@ def gen_chan_script(rng, mode, maxbody, stats=None, want=None, adapter_ok=False,
         elif r < 0.90: body.append(f"v{c}" if decls[c][:2] == "SW" else f"p{c}")
         elif r < 0.93: body.append(f"b{c}" if decls[c][:2] == "SW" else f"a{c}")
         elif r < 0.96: body.append("z" if mode != "export" else "y")
-        elif tasks and mode != "export" and r < 0.98: body.append(f"t{rng.choice([1, 2])}")
+        elif tasks and mode == "cabi2" and r < 0.98: body.append(f"t{rng.choice([1, 2])}")
         else: body.append("y")
     host = []
     m = rng.randint(0, 2 * maxbody)
